@@ -130,15 +130,15 @@ def _circuit_queries(p, name, c, extra_constraints=(), describe=None, rebuild=No
         return dis, tot
 
     try:
-        if PATH_LIMIT_HITS[0] >= 6:
+        if PATH_LIMIT_HITS[0] >= 3:
             # the evaluator of this tree branches on gate values at every gate: deciding circuits by forking is hopeless
             p.queries["unknown"] += 1
             return True
-        paths, stats = forkexec.explore(build, catch=(), max_paths=512)
+        paths, stats = forkexec.explore(build, catch=(), max_paths=512, max_seconds=20)
     except forkexec.PathLimit:
         PATH_LIMIT_HITS[0] += 1
         p.queries["unknown"] += 1
-        p.inconclusive.append(f"{name}: the evaluator branches on gate values more than 512 ways on {describe or circ.describe(c)}")
+        p.inconclusive.append(f"{name}: the evaluator branches on gate values more than 512 ways (or 20 s of paths) on {describe or circ.describe(c)}")
         return True
     except Exception as e:  # noqa: BLE001 - the evaluator itself raised on symbolic three-valued inputs
         p.violation(f"partial:evaluation-raises:{type(e).__name__}:{name.split('[')[0]}",
